@@ -390,7 +390,7 @@ fn generate(tier: &str) -> Vec<String> {
     }
 
     // 3. random pairs (boundary biased, half of them targeted at an overflow edge)
-    let n_pairs = if thorough { 75000 } else { 5000 };
+    let n_pairs = if thorough { 75000 } else { 9000 };
     for i in 0..n_pairs {
         let a = rand_int(&mut rng);
         for op in BIN {
